@@ -210,8 +210,8 @@ def diffusionTermPolar2D(D: FaceVariable) -> csr_array:
     jjy = np.hstack([G[1:Nx+1, 0:Ny].ravel(),
                      G[1:Nx+1, 1:Ny+1].ravel(),
                      G[1:Nx+1, 2:Ny+2].ravel()])
-    sx = np.hstack([AW, APx, AE]).ravel()
-    sy = np.hstack([AS, APy, AN]).ravel()
+    sx = np.hstack([AW.ravel(), APx.ravel(), AE.ravel()])
+    sy = np.hstack([AS.ravel(), APy.ravel(), AN.ravel()])
 
     # build the sparse matrix
     kx = 3*mn
